@@ -33,7 +33,72 @@ fn reparse(e: &OpeningHoursExpression) -> (&'static str, Option<String>) {
     }
 }
 
+/// kinds of the day's schedule (comments left out: C07 is about states)
+fn kinds_of<L: opening_hours::localization::Localize>(oh: &opening_hours::OpeningHours<L>, date: chrono::NaiveDate) -> String {
+    catch(|| {
+        let mut out = String::new();
+        for tr in oh.schedule_at(date).into_iter() {
+            out.push_str(&format!("{}-{}:{},", tr.range.start.mins_from_midnight(), tr.range.end.mins_from_midnight(), ast::kind_tok(tr.kind)));
+        }
+        if out.is_empty() {
+            "-".to_string()
+        } else {
+            out
+        }
+    })
+    .unwrap_or_else(|p| p)
+}
+
+/// `nz.api <day> <ctx> <expr>`: the PUBLIC entry point `OpeningHours::normalize()` under a context —
+/// the day's kinds for the value, for `value.normalize()`, for `parse(..).normalize().with_context(ctx)`
+/// and the states at noon (`state`) of the first two: `<k0> | <k1> | <k2> | <s0> <s1>`
+fn exec_api(a: &[&str]) -> Option<String> {
+    use opening_hours::localization::{Coordinates, TzLocation};
+    use opening_hours::{Context, OpeningHours};
+    let day: i64 = a.first()?.parse().ok()?;
+    let date = ast::date_of(day)?;
+    let spec = crate::ev::parse_ctx(a.get(1)?)?;
+    let src = dec(a.get(2)?)?;
+    let oh = match catch(|| OpeningHours::parse(&src)) {
+        Err(p) => return Some(format!("parse-{p}")),
+        Ok(Err(_)) => return Some("parse-error x".to_string()),
+        Ok(Ok(oh)) => oh,
+    };
+    let hol = crate::ev::holidays(&spec)?;
+    let noon = date.and_hms_opt(12, 0, 30)?;
+    let st = |k: Result<opening_hours_syntax::rules::RuleKind, String>| k.map(|k| ast::kind_tok(k).to_string()).unwrap_or_else(|p| p);
+    if let Some((lat, lon, tz)) = spec.coords {
+        let Some(coords) = Coordinates::new(lat, lon) else { return Some("rejected".to_string()) };
+        let loc = TzLocation::new(tz).with_coords(coords);
+        let ctx = Context::default().with_holidays(hol).with_locale(loc.clone());
+        let v = oh.clone().with_context(ctx.clone());
+        let n1 = match catch(|| v.normalize()) {
+            Ok(n) => n,
+            Err(p) => return Some(format!("{} | {p} | - | - -", kinds_of(&v, date))),
+        };
+        let n2 = catch(|| oh.normalize().with_context(ctx)).ok()?;
+        use opening_hours::localization::Localize;
+        let t = loc.datetime(noon);
+        Some(format!("{} | {} | {} | {} {}", kinds_of(&v, date), kinds_of(&n1, date), kinds_of(&n2, date), st(catch(|| v.state(t))), st(catch(|| n1.state(t)))))
+    } else {
+        let mut ctx = Context::default().with_holidays(hol);
+        if let Some(b) = spec.bound_ns {
+            ctx = ctx.approx_bound_interval_size(chrono::TimeDelta::nanoseconds(b));
+        }
+        let v = oh.clone().with_context(ctx.clone());
+        let n1 = match catch(|| v.normalize()) {
+            Ok(n) => n,
+            Err(p) => return Some(format!("{} | {p} | - | - -", kinds_of(&v, date))),
+        };
+        let n2 = catch(|| oh.normalize().with_context(ctx)).ok()?;
+        Some(format!("{} | {} | {} | {} {}", kinds_of(&v, date), kinds_of(&n1, date), kinds_of(&n2, date), st(catch(|| v.state(noon))), st(catch(|| n1.state(noon)))))
+    }
+}
+
 pub fn exec(op: &str, a: &[&str]) -> Option<String> {
+    if op == "nz.api" {
+        return exec_api(a);
+    }
     if op != "nz.norm" || a.is_empty() {
         return None;
     }
@@ -266,5 +331,32 @@ pub fn gen(tier: &str, rng: &mut Rng, emit: &mut dyn FnMut(String)) {
             _ => dense_expr(rng),
         };
         emit(line(rng, &e, days));
+        // the public entry point under a context: holiday, sun-event and plain expressions alike
+        if i % 2 == 0 || thorough {
+            let e2 = match i % 6 {
+                0 => format!("{e}; PH off"),
+                2 => format!("{e}; SH off; PH 10:00-12:00"),
+                4 => format!("sunrise-sunset; {e}"),
+                _ => e.clone(),
+            };
+            let ctx = crate::ev::gen_ctx(rng, &e2, true);
+            for _ in 0..2 {
+                let d = crate::ev::gen_day_for(rng, &ctx, &e2);
+                emit(format!("nz.api {d} {ctx} {}", enc(&e2)));
+            }
+        }
+    }
+    // contexts with ONE of the two calendars only (the other empty), holiday-only rules
+    for (i, e) in ["Mo-Fr 10:00-18:00; SH off", "Mo-Fr 10:00-18:00; PH off", "24/7; PH,SH off", "SH 10:00-12:00", "PH 10:00-12:00; Sa off",
+        "Mo-Su 08:00-20:00; SH +1 day off", "PH -1 day 10:00-14:00; Mo off", "10:00-12:00; PH off || unknown"].iter().enumerate()
+    {
+        for d in [739_000i64, 739_100, 739_200, 739_300] {
+            let d = d + i as i64;
+            for ctx in [format!("ph={d}"), format!("sh={d}"), format!("ph={d};sh={}", d + 1), format!("sh={d},{}", d + 1), "-".to_string()] {
+                for dd in [d - 1, d, d + 1] {
+                    emit(format!("nz.api {dd} {ctx} {}", enc(e)));
+                }
+            }
+        }
     }
 }
